@@ -154,6 +154,61 @@ func c01Pinned(out *bufio.Writer, dir string) {
 	fmt.Fprintf(out, "srcden %s.pre %s.post %s %s %s\tvalid=%v doc=pinned\tok\n", id, id, id, root, doc.sexp(), rv.validate(doc) == nil)
 }
 
+// c11PinnedNullRef: the witness of ¬C11_pass_widening_full (lean/Cog/Props/C11.lean, `wNullRef`):
+// `Root = { child?: Root | null }`; `{"child": null}` is source-valid, `Root.from_json(None)` raises.
+const c11PinnedNullRef = `{
+  "$schema": "http://json-schema.org/draft-07/schema#",
+  "$ref": "#/definitions/Root",
+  "definitions": {
+    "Root": {"type": "object", "additionalProperties": false,
+      "properties": {"child": {"anyOf": [{"$ref": "#/definitions/Root"}, {"type": "null"}]}}}
+  }
+}`
+
+func c11Pinned(out *bufio.Writer, dir string) {
+	id := "pinnullref"
+	root := "Root"
+	defer func() {
+		if rec := recover(); rec != nil {
+			fmt.Fprintf(out, "-\tskip %s harness-panic %s\tok\n", id, labOneLine(fmt.Sprint(rec)))
+		}
+	}()
+	path, err := writeSchemaFile(dir, "jsonschema", id, c11PinnedNullRef)
+	if err != nil {
+		fmt.Fprintf(out, "-\tskip %s write %s\tok\n", id, labOneLine(err.Error()))
+		return
+	}
+	lr := labRun{Format: "jsonschema", Path: path, Package: id,
+		GoCfg: &golang.Config{GenerateJSONMarshaller: true, GenerateStrictUnmarshaller: true, GenerateEqual: true, GenerateValidate: true, PackageRoot: labGoModule},
+		PyCfg: &python.Config{GenerateJSONMarshaller: true}}
+	pre, err := lr.loadSchemas()
+	if err != nil {
+		fmt.Fprintf(out, "-\tskip %s front-end-error %s\tok\n", id, labOneLine(labFirstLine(err.Error())))
+		return
+	}
+	post, _, err := lr.chainIR("go")
+	if err != nil {
+		fmt.Fprintf(out, "-\tskip %s chain-error %s\tok\n", id, labOneLine(labFirstLine(err.Error())))
+		return
+	}
+	postPy, _, err := lr.chainIR("python")
+	if err != nil {
+		fmt.Fprintf(out, "-\tskip %s python-chain-error %s\tok\n", id, labOneLine(labFirstLine(err.Error())))
+		return
+	}
+	rv, err := newRefValidator("jsonschema", c11PinnedNullRef, root)
+	if err != nil {
+		fmt.Fprintf(out, "-\tskip %s no-reference-validator %s\tok\n", id, labOneLine(shortErr(err)))
+		return
+	}
+	doc, _ := parseJV([]byte(`{"child": null}`))
+	fmt.Fprintf(out, "-\tpinned %s format=jsonschema witness=C11_pass_widening_counterexample\tok\n", id)
+	fmt.Fprintf(out, "defschemas %s.pre %s\tok\tok\n", id, virSchemas(pre))
+	fmt.Fprintf(out, "defschemas %s.post %s\tok\tok\n", id, virSchemas(post))
+	fmt.Fprintf(out, "defschemas %s.postpy %s\tok\tok\n", id, virSchemas(postPy))
+	fmt.Fprintf(out, "srcpy %s.pre %s.post %s.postpy %s %s %s\tvalid=%v doc=pinned\tok\n", id, id, id, id, root, doc.sexp(), rv.validate(doc) == nil)
+}
+
 func init() {
 	register("c01-src", func(args map[string]string, out *bufio.Writer) error { return c01SrcStream(args, out, false) })
 	// c11-src: the same cases and documents, plus the REAL post-Python-chain IR; rows
@@ -175,6 +230,9 @@ func c01SrcStream(args map[string]string, out *bufio.Writer, py bool) error {
 		faultKinds := []string{"undeclaredKey", "missingRequired", "nullRequired", "wrongType", "notInEnum"}
 		if args["pinned"] != "0" && !py {
 			c01Pinned(out, dir)
+		}
+		if args["pinned"] != "0" && py {
+			c11Pinned(out, dir)
 		}
 		for i := from; i < from+n; i++ {
 			profile := i % 3
